@@ -335,6 +335,9 @@ func runUnits(in *bufio.Scanner, out *bufio.Writer, noRef bool) error {
 		if nodes > 2 {
 			st.CasesWithNodes++
 		}
+		if nodes > 2 || len(o.errs) > 0 {
+			st.NonTrivial++
+		}
 	}
 	out.Flush()
 	b, _ := json.Marshal(st)
